@@ -682,15 +682,22 @@ func (e *Engine) HookObserver2(point, arg string) {
 			e.H.mu.Unlock()
 		}
 	case "handleRequest":
-		e.H.mu.Lock()
-		e.curReq = e.lookupSubject(arg)
-		e.H.mu.Unlock()
+		// per listener goroutine: after an overlapping restart the listener
+		// of the previous Serve call may still be handing over requests
+		if t := e.Sim.Current(); t != nil {
+			e.H.mu.Lock()
+			if e.curReq == nil {
+				e.curReq = map[string]*Submission{}
+			}
+			e.curReq[t.Name] = e.lookupSubject(arg)
+			e.H.mu.Unlock()
+		}
 	case "runWith.afterSignal", "runWith.afterAppend":
 		t := e.Sim.Current()
 		if t != nil && strings.HasPrefix(t.Name, "serve") {
 			e.H.mu.Lock()
-			if e.curReq != nil && e.curReq.Enqueued == 0 {
-				e.curReq.Enqueued = e.Sim.Seq()
+			if cr := e.curReq[t.Name]; cr != nil && cr.Enqueued == 0 {
+				cr.Enqueued = e.Sim.Seq()
 			}
 			e.H.mu.Unlock()
 		}
